@@ -197,7 +197,24 @@ func ruleCollectBound(c *Ctx) {
 	})
 	// pieces built by a helper closure whose End is the closure's parameter: one piece per call of the closure, with
 	// the argument as End (the closure's own guard compares that parameter with the start: FLUSH-GUARD holds by shape)
+	// helpers: the function's closures and the module functions it calls directly
+	helperSet := map[*ssa.Function]bool{}
+	var helpers []*ssa.Function
 	for _, g := range fn.AnonFuncs {
+		if !helperSet[g] {
+			helperSet[g] = true
+			helpers = append(helpers, g)
+		}
+	}
+	eachInstr(fn, func(x ssa.Instruction) {
+		if call, ok := x.(*ssa.Call); ok {
+			if g := call.Call.StaticCallee(); g != nil && p.InModule(g) && g.Blocks != nil && g != fn && !helperSet[g] {
+				helperSet[g] = true
+				helpers = append(helpers, g)
+			}
+		}
+	})
+	for _, g := range helpers {
 		eachInstr(g, func(x ssa.Instruction) {
 			al, ok := x.(*ssa.Alloc)
 			if !ok || typeName(deref(al.Type())) != "Inline" {
